@@ -45,6 +45,7 @@ type cancelCtx struct {
 	hasDL    bool
 	tm       *timer
 	noProp   bool
+	foreign  bool // parent is a foreign Context implementation: watched by a task
 }
 
 func (c *cancelCtx) Deadline() (time.Time, bool) {
@@ -122,6 +123,19 @@ func newCancelCtx(parent Context) *cancelCtx {
 			c.cancel(p.err, p.cause, true)
 		} else {
 			p.children = append(p.children, c)
+		}
+	} else if pd := parent.Done(); pd != nil {
+		// a parent that is not one of this package's own contexts (a caller's
+		// own Context implementation): as in package context, a separate task
+		// watches it, so the child is cancelled some time AFTER the parent
+		c.foreign = true
+		if s := cur; s != nil {
+			Go("context.propagateCancel", func() {
+				r := RecvOf(pd)
+				if Select("", false, r, RecvOf(c.done)) == 0 {
+					c.cancel(parent.Err(), nil, false)
+				}
+			})
 		}
 	}
 	return c
